@@ -54,7 +54,9 @@ func crlIssuer() (*x509.Certificate, crypto.Signer) {
 // makeCRL mints a CRL with the given number; pad adds revoked entries to grow it.
 func makeCRL(number int64, nextUpdate time.Time, pad int, delta bool) *x509.RevocationList {
 	issuer, key := crlIssuer()
-	this := time.Now().Add(-time.Hour)
+	// issued an hour ago - or, for some numbers, a month ago, or five minutes from now (the issuer's clock runs ahead of ours):
+	// when a CRL was issued says nothing about whether the cache may return it
+	this := time.Now().Add([]time.Duration{-time.Hour, 5 * time.Minute, -720 * time.Hour}[int(number%3+3)%3])
 	if !nextUpdate.After(this.Add(time.Hour)) {
 		this = nextUpdate.Add(-24 * time.Hour)
 	}
